@@ -548,11 +548,15 @@ def stream_reverse(ctx):
 # ---------------------------------------------------------------- dual-basis jellium (float)
 
 def close_ops(a, b, tol=1e-9):
+    """absolute tolerance 1e-9, scaled down with the largest coefficient when that is below 1 (large grid scales)"""
     keys = set(a.terms) | set(b.terms)
     worst = 0.0
+    big = 0.0
     for k in keys:
-        worst = max(worst, abs(complex(a.terms.get(k, 0.0)) - complex(b.terms.get(k, 0.0))))
-    return worst <= tol, worst
+        x, y = complex(a.terms.get(k, 0.0)), complex(b.terms.get(k, 0.0))
+        worst = max(worst, abs(x - y))
+        big = max(big, abs(x), abs(y))
+    return worst <= tol * min(1.0, big if big > 0 else 1.0), worst
 
 
 def stream_jellium(ctx):
@@ -564,14 +568,14 @@ def stream_jellium(ctx):
     st = Stream('dual-basis-jellium', 'jordan_wigner_dual_basis_jellium / jordan_wigner_dual_basis_hamiltonian against '
                 'jordan_wigner of the FermionOperator Hamiltonian on grids 1-D (length 2..4), 2-D 2x2 (3x3 thorough), 2-D with '
                 'unequal lengths (2,3),(3,2) and anisotropic / sheared cells (axis reversal is not a symmetry there), '
-                'spinless and spinful, with and without constant / nuclei; float comparison, absolute tolerance 1e-9 '
+                'grid scales 1e3 and 2e3 (larger scales push kinetic coefficients below the pruning threshold 1e-8 of the library), spinless and spinful, with and without constant / nuclei; float comparison, absolute tolerance 1e-9 '
                 'on every coefficient of the union of keys')
     jw = of.transforms.jordan_wigner
     import numpy as np
     # scalar cubic grids, grids with unequal lengths per axis, and anisotropic / sheared cells (on the latter
     # two reversing the axes is not a symmetry, so any mix-up of the orbital numbering convention shows)
     grids = [(1, 2, 1.0), (1, 3, 2.0), (1, 4, 1.5), (2, 2, 1.0),
-             (2, (2, 3), 1.0), (2, (3, 2), 1.5), (2, 2, np.diag([1.0, 1.7])),
+             (2, (2, 3), 1.0), (2, (3, 2), 1.5), (2, 2, np.diag([1.0, 1.7])), (1, 3, 1.0e3), (2, 2, 2.0e3),
              (2, (2, 3), np.array([[1.0, 0.3], [0.0, 1.2]]))]
     if ctx.tier == 'thorough':
         grids += [(2, 3, 2.0), (1, 5, 0.75), (3, 2, 1.0), (3, (2, 1, 3), 1.0), (2, (3, 2), np.diag([0.8, 1.3])),
